@@ -10,7 +10,7 @@ The Cython variants (get_gev_vector.pyx, c_eig.pyx) are not built on this image 
 """
 from ..model import AnalysisError
 from ..terms import T, walk_terms
-from ..walk import data_derives, ret_alts, call_parts, call_arg, is_call_to, const_val, NOVAL, strip_views, unwrap_gamma, is_conj, same_value, as_norm, struct_eq
+from ..walk import data_derives, ret_alts, call_parts, call_arg, is_call_to, const_val, NOVAL, strip_views, unwrap_gamma, is_conj, same_value, as_norm, struct_eq, gamma_paths, selected_options
 from .. import ein, sel
 
 B = 'pb_bss.extraction.beamformer::'
@@ -126,6 +126,24 @@ def check_pca(run, A):
                                           construct=f'R-ROLE::{qv}::eigenvalue-scaling')
         if n_scaled < 2:
             raise AnalysisError('get_pca_vector: scaling alternatives not found')
+        # the option string selects the gain of that name
+        n_opt = 0
+        for ret in rets:
+            # (the selection may sit anywhere inside the scale: around the whole factor, or around the gain only)
+            for conds, leaf in [p_ for g_ in [ret.args[2]] + [x for x in walk_terms(ret.args[2]) if x.op == 'gamma'] for p_ in gamma_paths(g_)]:
+                sel_ = selected_options(conds, 'scaling')
+                if len(sel_) != 1 or len(sel_[0]) != 1:
+                    continue
+                opt = next(iter(sel_[0]))
+                has_trace = any(is_call_to(x, 'numpy.trace') for x in walk_terms(leaf))
+                has_eig = any(x.op == 'unpack' and x.args[1] == 1 and call_parts(strip_views(x.args[0]))[0] == B + 'get_pca' for x in walk_terms(leaf))
+                if opt in ('trace', 'eigenvalue') and (has_trace or has_eig):
+                    n_opt += 1
+                    got = 'trace' if has_trace and not has_eig else 'eigenvalue' if has_eig and not has_trace else 'both'
+                    run.check(got == opt, 'R-ROLE', f'get_pca_vector: scaling={opt!r} selects the gain of that name', fn.loc(getattr(leaf, 'node', None)), '',
+                              f'scaling == {opt!r} multiplies the eigenvector by the {got} gain (documented: trace -> sqrt(tr Phi), eigenvalue -> lambda_max)',
+                              construct=f'R-ROLE::{qv}::option::{opt}')
+        run.floor('get_pca_vector option strings with a decided gain', n_opt, 1)
 
 
 def check_rank_one(run, A):
